@@ -4,11 +4,19 @@
 From RW Require Import Base.Bytes Fmt.Codec Fmt.Frame Wal.Model Gen.Constants.
 Open Scope N_scope.
 
-Lemma io_fail_no_effect a e e' : io a e = (false, e') -> e_disk e' = e_disk e.
+(* a failed action has no effect -- except a BoltDB transaction under fx_land, which is
+   reported as failed and found applied *)
+Lemma io_fail_no_effect a e e' : io a e = (false, e') ->
+  e_disk e' = e_disk e \/
+  (is_txn a = true /\ fx_land (e_fx e) = true /\ e_fault e = Some O /\ e_disk e' = apply_act (e_disk e) a).
 Proof.
-  unfold io. destruct (is_delete a); [destruct (armed e && fx_del (e_fx e)); intros H; inversion H; reflexivity|].
-  destruct (e_fault e) as [[|n]|]; intros H; inversion H; reflexivity.
+  unfold io. destruct (is_delete a); [destruct (armed e && fx_del (e_fx e)); intros H; inversion H; left; reflexivity|].
+  destruct (e_fault e) as [[|n]|]; [|intros H; inversion H..].
+  destruct (is_txn a) eqn:Et, (fx_land (e_fx e)) eqn:El; cbn [andb]; intros H; inversion H; subst; cbn [e_disk]; auto.
 Qed.
+
+Lemma io_fail_no_effect_plain a e e' : is_txn a = false -> io a e = (false, e') -> e_disk e' = e_disk e.
+Proof. intros Ht H. destruct (io_fail_no_effect a e e' H) as [K|(K & _)]; [exact K|congruence]. Qed.
 
 (* Writer.Append: whatever fails (write or fsync), the writer state is the one
    before the call, so a failed batch is never visible through commit_idx *)
@@ -38,10 +46,15 @@ Proof.
   - intros H; inversion H; reflexivity.
 Qed.
 
-(* mutateStateLocked: if the metadata commit fails nothing is published *)
-Lemma mutate_commit_failure_publishes_nothing w t e e1 :
+(* mutateStateLocked: if the metadata commit fails nothing is published and the WAL
+   refuses writes from then on (the commit may have reached the disk) *)
+Definition wal_failed (w : wal) : wal :=
+  {| st_next_id := st_next_id w; st_segs := st_segs w; st_tail := st_tail w;
+     st_rotate := st_rotate w; st_failed := true; st_closed := st_closed w |}.
+
+Lemma mutate_commit_failure_fails_wal w t e e1 :
   io (ACommit {| ps_next_id := tx_next_id t; ps_segs := tx_segs t |}) e = (false, e1) ->
-  mutate w t e = (RErrIO, w, e1).
+  mutate w t e = (RErrIO, wal_failed w, e1).
 Proof. intros H. unfold mutate, mutate_gen. rewrite H. reflexivity. Qed.
 
 (* after a failed post-commit creation the WAL refuses every further write
